@@ -38,6 +38,7 @@ from dask.utils import apply, funcname, natural_sort_key, parse_bytes, typename
 from fsspec.utils import stringify_path
 from toolz import identity
 
+from dask_expr import _verif
 from dask_expr._expr import (
     EQ,
     GE,
@@ -396,6 +397,8 @@ def to_parquet(
         # Clear read_parquet caches in case we are
         # also reading from the overwritten path
         _cached_plan.clear()
+        if _verif.ENABLED:
+            _verif.emit("cache", name="pq_cached_plan", key="*", hit=False, cleared=True)
 
     # Always skip divisions checks if divisions are unknown
     if not df.known_divisions:
@@ -1304,6 +1307,8 @@ class ReadParquetFSSpec(ReadParquet):
                 empty = True
 
             _control_cached_plan(dataset_token)
+            if _verif.ENABLED:
+                _verif.emit("cache", name="pq_cached_plan", key=dataset_token, hit=False)
             _cached_plan[dataset_token] = {
                 "empty": empty,
                 "parts": parts,
